@@ -151,7 +151,7 @@ class Program:
             self.by_tail.setdefault(tail, []).append(name)
         # promoted constants of functions: `const <fn path>::promoted[k]: <type> = {` with an ordinary body
         self.consts = {}
-        for m in re.finditer(r'^const (.+?::(?:promoted\[\d+\]|[A-Z][A-Z0-9_]*)): (.+?) = \{$', self.text, re.M):
+        for m in re.finditer(r'^const ((?:.+?::)?(?:promoted\[\d+\]|[A-Z][A-Z0-9_]*)): (.+?) = \{$', self.text, re.M):
             self.consts.setdefault(m.group(1), []).append(m.start())
 
     @staticmethod
